@@ -101,6 +101,7 @@ def lift_float(x: float) -> Q3:
     Shortest decimal repr, except values within 1e-13 (relative) of k/n for the
     listed n or of (p/q)*sqrt3 with small p, q: those are read as the closed form.
     """
+    x = float(x)          # numpy scalars print as 'np.float64(...)'
     if x != x or x in (float('inf'), float('-inf')):
         raise EngineLimit(f'non-finite constant {x!r}')
     if x == int(x) and abs(x) < 1e15:
